@@ -289,6 +289,40 @@ def _alias_cycle_only(v, ctx):
                               and "expanding type alias" in e["msg"] for e in errs)
 
 
+def _dup_kind_across_rules(v, ctx):
+    """Signature of C11-F3: rustc objects only to items defined twice in the actions file
+    (E0428, and E0119 for their derives) and some production kind occurs in two rules."""
+    import re
+    errs = v.get("rustc") or []
+    dup = set()
+    for e in errs:
+        m_ = re.search(r"the name `(\w+)` is defined multiple times", e["msg"]) if e["code"] == "E0428" else None
+        if m_:
+            dup.add(m_.group(1))
+    # every other complaint has to be about one of the doubly defined types
+    if not dup or not all(e["file"] == "g_actions" and (e["code"] == "E0428" or any(
+            re.search(r"\b%s\b" % d_, e["msg"]) for d_ in dup)) for e in errs):
+        return False
+    text = ctx.grammar(v["stage"], v["id"])
+    text = re.sub(r"/\*.*?\*/", " ", text, flags=re.S)
+    text = re.sub(r"//[^\n]*", " ", text).split("terminals")[0]
+    words = {"left", "right", "reduce", "shift", "dynamic", "nops", "nopse", "true", "false"}
+    owners = {}
+    for rule in text.split(";"):
+        if ":" not in rule:
+            continue
+        head, body = rule.split(":", 1)
+        name = re.sub(r"\{.*?\}", " ", head, flags=re.S).split()
+        if not name:
+            continue
+        for group in re.findall(r"\{(.*?)\}", body, flags=re.S):
+            for part in group.split(","):
+                part = part.strip()
+                if re.fullmatch(r"[A-Za-z_]\w*", part) and part not in words:
+                    owners.setdefault(part, set()).add(name[-1])
+    return all(len(owners.get(d_, ())) > 1 for d_ in dup)
+
+
 def known_match(prop, v, ctx):
     """Returns the finding id if the violation matches a committed signature."""
     for f in run.load_known().get("findings", []):
@@ -313,6 +347,9 @@ def known_match(prop, v, ctx):
         pred = sig.get("pred")
         if pred == "rn_indirect_nullable_tail":
             if not ("algo=glr" in v["id"] or "tt=rn" in v["id"]) or not _rn_indirect_nullable_tail(v, ctx):
+                continue
+        elif pred == "dup_kind_across_rules":
+            if not _dup_kind_across_rules(v, ctx):
                 continue
         elif pred == "alias_cycle_only":
             if not _alias_cycle_only(v, ctx):
